@@ -10,6 +10,10 @@
 //@ fragment: COMPRC :: src/debugger/breakpoint.rs :: impl BreakpointRegistry / fn decrease_companion_rc :: `if wps.len() == 1` .. `^Ok(())`
 //@ harness: name=c14_companion_rc prop=C14 unit=C14.companion_rc mode=bounded bound="at most 3 watchpoints share one end-of-scope breakpoint" fn="BreakpointRegistry::decrease_companion_rc (reference-count decision)" timeout=600
 //@ assume: C14.companion_rc: `self.remove_by_num` is replaced by a recorder; the companion is found by `values_mut().find(..)` over a std HashMap (not verified)
+//@ anchor: src/debugger/breakpoint.rs :: impl Breakpoint / fn new_watchpoint_companion
+//@ fragment: NEWCOMP :: src/debugger/breakpoint.rs :: impl Breakpoint / fn new_watchpoint_companion :: `let` .. `^Self::new_inner(`
+//@ harness: name=c14_companion_new prop=C14,C02 unit=C14.companion_new mode=complete fn="Breakpoint::new_watchpoint_companion (number / watchpoint-list decision)" timeout=600
+//@ assume: C14.companion_new: the registry is a one-slot map with the call shape of BreakpointRegistry::get_enabled; the statements up to the call of Self::new_inner are spliced verbatim, the call itself is replaced by returning its (number, list) arguments
 //@ harness: name=c02_enable prop=C02 unit=C02.patch.enable mode=complete fn="Breakpoint::enable"
 //@ harness: name=c02_disable prop=C02 unit=C02.patch.disable mode=complete fn="Breakpoint::disable"
 //@ harness: name=c02_roundtrip prop=C02 unit=C02.patch.roundtrip mode=complete fn="Breakpoint::enable, Breakpoint::disable"
@@ -249,4 +253,43 @@ fn c14_companion_rc() {
     check_companion(1);
     check_companion(2);
     check_companion(3);
+}
+
+
+// ---- creating the end-of-scope companion of a watchpoint (statements of new_watchpoint_companion before new_inner)
+struct RegistryOne { slot: Breakpoint }
+impl RegistryOne {
+    fn get_enabled(&self, addr: RelocatedAddress) -> Option<&Breakpoint> {
+        if self.slot.addr.as_usize() == addr.as_usize() { Some(&self.slot) } else { None }
+    }
+}
+
+fn companion_parts(registry: &RegistryOne, wp_num: u32, addr: RelocatedAddress) -> (u32, Vec<u32>) {
+    /*@@FRAGMENT:NEWCOMP*/
+    (brkpt_num, wp_nums)
+}
+
+#[kani::proof]
+#[kani::unwind(6)]
+fn c14_companion_new() {
+    let a: usize = kani::any();
+    let other: usize = kani::any();
+    let same: bool = kani::any();
+    kani::assume(other != a);
+    let n0: u32 = kani::any();
+    let w0: u32 = kani::any();
+    let wp: u32 = kani::any();
+    let is_companion: bool = kani::any();
+    let mut existing = Breakpoint::new_linker_map(RelocatedAddress::from(if same { a } else { other }), Pid::from_raw(1));
+    existing.number = n0;
+    if is_companion { existing.r#type = BrkptType::WatchpointCompanion(vec![w0]); }
+    let reg = RegistryOne { slot: existing };
+    let (num, list) = companion_parts(&reg, wp, RelocatedAddress::from(a));
+    if same && is_companion {
+        assert!(num == n0, "C14.companion_new.E1 a second watchpoint of the same scope shares the existing end-of-scope breakpoint (same number, so the reference count can find it)");
+        assert!(list.len() == 2 && list[0] == w0 && list[1] == wp, "C14.companion_new.E2 the new watchpoint is added to the companion's list, the earlier ones are kept");
+    } else {
+        assert!(list.len() == 1 && list[0] == wp, "C14.companion_new.E3 a fresh companion references exactly the new watchpoint");
+    }
+    core::mem::forget((reg, list));
 }
